@@ -20,11 +20,14 @@ CONSTANTS Fams,        \* subset of AllFams
           MaxCap,      \* capacities 0..MaxCap for the addrttl arrays
           TTLs,        \* TTL values used for the RRs whose TTL matters (A/AAAA/CNAME/URI)
           Rich,        \* TRUE: larger alphabets (thorough tier)
+          Chain,       \* TRUE: A/AAAA answers are in-order alias chains of 0..3 links, every link with an
+                       \*       independently chosen TTL (all orders, also non-monotonic), then 1..2 addresses
           Emit         \* TRUE: print vectors
 
 \* TTL sets for the configs (a .cfg file cannot spell a negative number);  -1 = 0xFFFFFFFF on the wire
 QuickTTLs == {5, 60}
-RichTTLs  == {0, 5, 60, 2147483647, -1}
+RichTTLs  == {0, 5, 60, 300, 2147483647, -1}
+ChainTTLs == {0, 5, 60, 300}
 
 VARIABLES fam, an, ns, ar
 vars == <<fam, an, ns, ar>>
@@ -129,6 +132,19 @@ Extra(f) ==
     [] f = "NAPTR" -> {NAPTRr(N0, 9, 9, "Z", "z", "", N3, CIN)}
     [] f = "URI"  -> {URIr(N0, 9, 9, "http://z.test/", CIN, 0)}
 
+\* Chain mode (A/AAAA): the next record of an answer that so far is  alias^k address^j :
+\* the next link of the chain n0 -> n1 -> n2 -> n3 (while no address has been added, k < 3) or an
+\* address at the current end of the chain (j < 2), each with any TTL of TTLs.
+ChainNames == <<N0, N1, N2, N3>>
+ChainNext(f, a) ==
+  LET nal   == Len(SelectSeq(a, LAMBDA r : r.type = "CNAME"))
+      naddr == Len(a) - nal
+      ip    == IF f = "A" THEN (IF naddr = 0 THEN IP1 ELSE IP2) ELSE (IF naddr = 0 THEN V61 ELSE V62)
+  IN (IF naddr = 0 /\ nal < 3 THEN {CN(ChainNames[nal + 1], ChainNames[nal + 2], t) : t \in TTLs} ELSE {})
+     \cup (IF naddr < 2
+           THEN {IF f = "A" THEN A4(ChainNames[nal + 1], ip, CIN, t) ELSE A6(ChainNames[nal + 1], ip, CIN, t) : t \in TTLs}
+           ELSE {})
+
 Msg == [q |-> [name |-> N0, type |-> fam], an |-> an, ns |-> ns, ar |-> ar]
 
 -----------------------------------------------------------------------------
@@ -136,7 +152,7 @@ Init == fam \in Fams /\ an = <<>> /\ ns = <<>> /\ ar = <<>>
 
 AddAnswer ==
   /\ Len(an) < MaxAn /\ ns = <<>> /\ ar = <<>>
-  /\ \E r \in Alphabet(fam) : an' = Append(an, r)
+  /\ \E r \in (IF Chain THEN ChainNext(fam, an) ELSE Alphabet(fam)) : an' = Append(an, r)
   /\ UNCHANGED <<fam, ns, ar>>
 
 AddAuthority ==
